@@ -70,6 +70,13 @@ func c07Elems(tier string) []c07Elem {
 		raw("sse-id-only", "id: 77\n\n", "s"),
 		raw("sse-data-no-space", "event: message\ndata:{\"jsonrpc\":\"2.0\",\"method\":\"x/y\"}\n\n", "s"),
 		raw("sse-retry-field", "retry: 10\n\n", "s"),
+		// event ids a client may later echo in a Last-Event-ID header: control bytes, NUL, non-ASCII, very long
+		raw("sse-id-control-byte", "id: a\x01b\ndata: {\"jsonrpc\":\"2.0\",\"method\":\"x/y\"}\n\n", "s"),
+		raw("sse-id-nul", "id: a\x00b\ndata: {\"jsonrpc\":\"2.0\",\"method\":\"x/y\"}\n\n", "s"),
+		raw("sse-id-del", "id: a\x7fb\ndata: {\"jsonrpc\":\"2.0\",\"method\":\"x/y\"}\n\n", "s"),
+		raw("sse-id-non-ascii", "id: caf\xc3\xa9-\xe2\x80\xa8\ndata: {\"jsonrpc\":\"2.0\",\"method\":\"x/y\"}\n\n", "s"),
+		raw("sse-id-cr", "id: a\rid: b\ndata: {\"jsonrpc\":\"2.0\",\"method\":\"x/y\"}\n\n", "s"),
+		raw("sse-id-8KiB", "id: "+big(8192)+"\ndata: {\"jsonrpc\":\"2.0\",\"method\":\"x/y\"}\n\n", "s"),
 		raw("sse-second-endpoint", "event: endpoint\ndata: /message?sessionId=s2\n\n", "ls"),
 		raw("sse-endpoint-bad-url", "event: endpoint\ndata: http://[::1\n\n", "ls"),
 		raw("sse-endpoint-empty", "event: endpoint\ndata: \n\n", "ls"),
